@@ -27,7 +27,11 @@ def strat(draw, tier):
         if f == 'partially_occluded':
             sd['agent'][0] = y = h - 1
         area = [[-y, h - 1 - y], [-x, w - 1 - x]]
+    huge = f in ('fully_transparent', 'partially_occluded') and draw(st.integers(0, 24)) == 0
+    if huge:
+        area = draw(st.sampled_from(gen.HUGE_AREAS))
     pre = draw(st.sampled_from([None, None] + [g for g in obsutil.DETERMINISTIC if g != 'partially_occluded' or area[0][1] == 0]))
+    pre = None if huge else pre
     return {'state': sd, 'area': area, 'f': f, 'seed': draw(gen.seed_s), 'pre': pre}
 
 
@@ -61,7 +65,7 @@ def oracle(case, ctx):
     from gym_gridverse.geometry import Position
     from gym_gridverse.grid import Grid
     vh_, vw_ = M.area_shape(area)
-    for vname in ('fully_transparent', 'raytracing'):
+    for vname in ('fully_transparent', 'raytracing') if vh_ * vw_ <= 400 else ('fully_transparent',):
         mask = VIS[vname](Grid.from_shape((vh_, vw_)), Position(-area[0][0], -area[1][0]))
         mask[...] = False
     S = objs.build_state(sd)
@@ -104,6 +108,8 @@ def oracle(case, ctx):
         cl.append('second_observation')
     if M.shape(full) == M.shape(sd) and not off:
         cl.append('view==grid')
+    if min(M.area_shape(area)) >= 32:
+        cl.append('huge_view')
     ctx.ev.case(case, nt=((off or odd) and nonfloor), classes=cl, key=[sd, area, f])
 
 
@@ -170,7 +176,7 @@ CHECKS = [
     Check('soundness', oracle, strategy=strat, examples={'quick': 700, 'thorough': 2500}, shards={'quick': 4, 'thorough': 16},
           rule='grids 1..7 (9 thorough) x agent anywhere x 4 headings x areas (extent <= 4/5 each way, symmetric or not, ymax != 0 too, view == grid) x 5 observation functions x seeds, '
                'against the model view-cell -> world-cell map; a look-alike world (different box contents) is observed first',
-          required=['view_off_grid', 'rotated_asymmetric', 'ymax!=0', 'box_lookalike_history', 'view==grid', 'heading:L', 'heading:B', 'heading:R']),
+          required=['view_off_grid', 'rotated_asymmetric', 'ymax!=0', 'box_lookalike_history', 'view==grid', 'heading:L', 'heading:B', 'heading:R', 'huge_view']),
     Check('gridworld_functional_observation', oracle_env, strategy=strat_env, examples={'quick': 300, 'thorough': 1200}, shards={'quick': 2, 'thorough': 8},
           rule='GridWorld assembled from built-ins, reset and its own observation read (memoised); then functional_observation of a look-alike state (== under the repository equality, other box contents) and of an equal copy against the model; one State object observed, edited in place (cell, heading), observed again',
           required=['memoised_then_lookalike', 'observed_edited_observed']),
